@@ -2233,7 +2233,7 @@ class Side:
         buffer.write(
             f'{ind}\t"id" "{self.id}"\n'
             f'{ind}\t"plane" "({self.planes[0]}) ({self.planes[1]}) ({self.planes[2]})"\n'
-            f'{ind}\t"material" "{self.mat}"\n'
+            f'{ind}\t"material" "{escape_text(self.mat)}"\n'
             f'{ind}\t"uaxis" "{self.uaxis}"\n'
             f'{ind}\t"vaxis" "{self.vaxis}"\n'
             f'{ind}\t"rotation" "{self.ham_rot:g}\"\n'
@@ -2777,7 +2777,7 @@ class Entity(MutableMapping[str, str]):
         buffer.write(ind + '{\n')
         buffer.write(f'{ind}\t"id" "{self.id}"\n')
         for key, value in sorted(self._keys.items(), key=operator.itemgetter(0)):
-            buffer.write(f'{ind}\t"{key}" "{escape_text(value)}"\n')
+            buffer.write(f'{ind}\t"{escape_text(key)}" "{escape_text(value)}"\n')
 
         if self._fixup is not None:
             self._fixup.export(buffer, ind)
